@@ -87,7 +87,7 @@ func genC01Case(t *rapid.T) C01Case {
 			op.FaultOp = rapid.SampledFrom([]string{"SetUserinfoWithUserID", "GetResponseSigningKey", "GetEntityIDByAppID", "AuthRequestByID"}).Draw(t, "faultop")
 			op.FaultKind = "error"
 			if op.FaultOp == "GetResponseSigningKey" {
-				op.FaultKind = rapid.SampledFrom([]string{"error", "nil", "nokey", "nocert", "emptycert"}).Draw(t, "faultkind")
+				op.FaultKind = rapid.SampledFrom([]string{"error", "nil", "nokey", "nocert", "emptycert", "mismatch", "mismatch"}).Draw(t, "faultkind")
 			}
 		case "callback":
 			op.Ref = rapid.IntRange(0, 50).Draw(t, "ref")
